@@ -155,11 +155,7 @@ func viewEvidence(node *pocketTypes.PocketNode, h pocketTypes.SessionHeader) evi
 	}
 	v := evidenceView{found: true, num: ev.NumOfProofs, sealed: node.EvidenceStore.IsSealed(ev)}
 	for _, p := range ev.Proofs {
-		if rp, ok := p.(pocketTypes.RelayProof); ok {
-			v.hashes = append(v.hashes, rp.HashStringWithSignature())
-		} else {
-			v.hashes = append(v.hashes, p.HashString())
-		}
+		v.hashes = append(v.hashes, proofID(p))
 	}
 	return v
 }
@@ -191,4 +187,16 @@ func allEvidenceHeaders(node *pocketTypes.PocketNode) []string {
 	}
 	sort.Strings(out)
 	return out
+}
+
+// proofID identifies a stored relay proof including its client signature (proofs that went through the
+// evidence database come back as *RelayProof, fresh ones are RelayProof values).
+func proofID(p pocketTypes.Proof) string {
+	switch rp := p.(type) {
+	case pocketTypes.RelayProof:
+		return rp.HashStringWithSignature()
+	case *pocketTypes.RelayProof:
+		return rp.HashStringWithSignature()
+	}
+	return p.HashString()
 }
